@@ -181,3 +181,45 @@ fn run(ctx: &mut Ctx) {
     let p = ctx.tier.pick(TreeParams::quick(), TreeParams::thorough());
     run_strategy(ctx, "C08", "eval", cases, arb_path_for(p), check);
 }
+
+// ---- structured decoding of fuzzer bytes (libFuzzer target c08_eval) ------------------------
+
+fn take(d: &mut &[u8]) -> u8 {
+    match d.split_first() {
+        Some((b, r)) => {
+            *d = r;
+            *b
+        }
+        None => 0,
+    }
+}
+fn doc_from_bytes(d: &mut &[u8], depth: u32) -> M {
+    const STRS: &[&str] = &["", "a", "b", "k", "key", "k1", "name", "price", "A", "ab", "测试", "1", "true"];
+    let t = take(d);
+    match t % 12 {
+        0 => M::Null,
+        1 => M::Bool(take(d) % 2 == 0),
+        2 => M::Num(N::U(take(d) as u64)),
+        3 => M::Num(N::I(-(take(d) as i64))),
+        4 => M::Num(N::F(take(d) as f64 / 4.0 - 8.0)),
+        5 => M::Num(N::U([u64::MAX, 1 << 53, (1 << 53) + 1, 65536][take(d) as usize % 4])),
+        6 | 7 => M::Str(STRS[take(d) as usize % STRS.len()].to_string()),
+        8 | 9 if depth < 4 => M::Arr((0..take(d) % 5).map(|_| doc_from_bytes(d, depth + 1)).collect()),
+        10 | 11 if depth < 4 => M::Obj((0..take(d) % 5).map(|_| (STRS[take(d) as usize % STRS.len()].to_string(), doc_from_bytes(d, depth + 1))).collect()),
+        _ => M::Num(N::F(1.5)),
+    }
+}
+/// first byte: length of the document part; the rest drives the path derivation
+pub fn case_from_bytes(data: &[u8]) -> Option<PathCase> {
+    if data.len() < 4 {
+        return None;
+    }
+    let n = (data[0] as usize).min(data.len() - 1);
+    let mut dpart = &data[1..1 + n];
+    let doc = doc_from_bytes(&mut dpart, 0);
+    let rest = &data[1 + n..];
+    let ch: Vec<u16> = rest.chunks(2).map(|c| u16::from_le_bytes([c[0], *c.get(1).unwrap_or(&0)])).collect();
+    let ast = derive_path_ast(&doc, &ch);
+    let path = print(&ast, &mut Style::new(&ch, ch.first().map(|x| x % 2 == 0).unwrap_or(true)));
+    Some(PathCase { doc, path })
+}
